@@ -40,20 +40,45 @@ func cat(parts ...[]byte) []byte {
 	return o
 }
 
-func vncScript(sc int) [][]byte {
+func vncScript(sc int) [][]byte { s, _ := vncScriptPaced(sc); return s }
+
+// the script and the index of the segment before which the client pauses (-1: no pause)
+func vncScriptPaced(sc int) ([][]byte, int) {
 	hs := [][]byte{[]byte("RFB 003.008\n"), {1}, {1}}
 	upd := func(incr byte) []byte { return cat([]byte{3, incr}, be16(0), be16(0), be16(8), be16(8)) }
 	switch sc {
 	case 0:
-		return hs
+		return hs, -1
 	case 1: // encodings, three full updates (starts the frame pusher), pointer and key events
-		return append(hs, cat([]byte{2, 0}, be16(1), be32(0)), upd(0), upd(0), upd(0), cat([]byte{5, 1}, be16(3), be16(4)), cat([]byte{4, 1, 0, 0}, be32(0x61)))
+		return append(hs, cat([]byte{2, 0}, be16(1), be32(0)), upd(0), upd(0), upd(0), cat([]byte{5, 1}, be16(3), be16(4)), cat([]byte{4, 1, 0, 0}, be32(0x61))), -1
 	case 2:
-		return [][]byte{[]byte("RFB 003.008\n")}
+		return [][]byte{[]byte("RFB 003.008\n")}, -1
 	case 3:
-		return append(hs, upd(1), upd(1), upd(1), upd(1), upd(1))
-	default: // cut inside a message
-		return append(hs, []byte{3, 0, 0})
+		return append(hs, upd(1), upd(1), upd(1), upd(1), upd(1)), -1
+	case 4: // cut inside a message
+		return append(hs, []byte{3, 0, 0}), -1
+	case 5, 6, 7:
+		// 5: SetPixelFormat with true-colour = 0 (the frame pusher gives up on the first frame),
+		//    then 140 full update requests pipelined in ONE write - more than the 128-slot queue
+		// 6: the same, one write per request, the client pausing after the first request (by then
+		//    the pusher has given up and closed the socket)
+		// 7: 140 pipelined requests with the default pixel format (the pusher keeps consuming)
+		spf := cat([]byte{0, 0, 0, 0, 16, 16, 0, 0}, be16(31), be16(31), be16(31), []byte{10, 5, 0, 0, 0, 0})
+		var burst []byte
+		var single [][]byte
+		for i := 0; i < 140; i++ {
+			burst = append(burst, upd(0)...)
+			single = append(single, upd(0))
+		}
+		switch sc {
+		case 5:
+			return append(hs, spf, burst), -1
+		case 6:
+			return append(append(hs, spf), single...), len(hs) + 2
+		}
+		return append(hs, burst), -1
+	default:
+		return hs, -1
 	}
 }
 
@@ -177,6 +202,11 @@ func runSweepConn(svc services.Servicer, sp Spec, idx int) (ob ConnObs, gone boo
 			segs = [][]byte{[]byte("SSH-2.0-x\r\n")}
 		}
 		mc := newMemConn(&net.TCPAddr{IP: lip, Port: 5900}, &net.TCPAddr{IP: rip, Port: 40000}, segs, end)
+		if in.Svc == "vnc" {
+			if _, at := vncScriptPaced(in.Scenario); at >= 0 {
+				mc.pauseAt, mc.pause = at, 60*time.Millisecond
+			}
+		}
 		base = mc
 		go func() { <-mc.drained; close(clientGone) }()
 	}
